@@ -13,6 +13,7 @@ from ..gen import exprs as X
 
 PROPERTY = "C04"
 LEVEL = "exploration"
+USES_REFERENCE_MODELS = True
 RULE = ("case = device statement form x presence pattern of its optional operands x operand kind (literal, variable, array "
         "element, arithmetic expression, expression needing a temporary, string expression) with a distinct value per operand; "
         "the forms and presence patterns are enumerated exhaustively, operand kinds rotate (quick) or form the full product on "
